@@ -83,6 +83,27 @@ claim('C15',
       'checks + structural dataflow check of the two converters',
       'DESIGN.md section 4 C15')
 
+claim('C07',
+      'Decides token kinds and extents for ALL source texts: the lexer\'s '
+      'ordered regex table and procedural openers are turned into automata '
+      'and compared, by exhaustive search of the product state space, with '
+      'the maximal-munch reference grammar; an empty difference is a proof, '
+      'a non-empty one yields the shortest witness. Also decides chunking '
+      'independence, multi-line state discipline, number-literal routing '
+      'into int()/float() (language dataflow) and position bookkeeping.',
+      'Decided: (kind, length) of the first token for every input (hence of '
+      'every token by induction, tokens are lexed from the remaining text), '
+      'line-locality of rows, opener/terminator agreement and state reset, '
+      'that TokNumber.value never raises on a spelling the table accepts, '
+      'one counter step per byte. Not decided: the numeric value computed by '
+      'the conversions, decoded string bytes (see C06), get_token_count\'s '
+      'counting rules. Trusted base: refs/lexical.py (reference grammar), '
+      'long-bracket levels > 2 behave like 0-2.',
+      'static analysis: regex-to-automata construction from the source\'s '
+      'patterns, product-automaton emptiness (first-match vs maximal munch), '
+      'regular-language dataflow, CFG checks',
+      'DESIGN.md section 4 C07, Appendix A.1')
+
 
 def main():
     props = []
